@@ -213,6 +213,9 @@ def load_module(relpath: str) -> ModuleInfo:
                     bases.append(b.attr)
             ci = ClassInfo(module=mi, node=node, name=node.name, bases=bases)
             _Mangler(node.name).generic_visit(node)  # mangle in place, whole class body
+            # @dataclass: an annotated name in the class body declares an INSTANCE field (its value is only the default the generated
+            # __init__ uses), not a class constant
+            is_dataclass = "dataclass" in _decorator_names(node)
             for sub in node.body:
                 if isinstance(sub, (ast.FunctionDef, ast.AsyncFunctionDef)):
                     decos = _decorator_names(sub)
@@ -224,6 +227,8 @@ def load_module(relpath: str) -> ModuleInfo:
                     ci.class_attrs[mangle(sub.targets[0].id, node.name)] = sub.value
                 elif isinstance(sub, ast.AnnAssign) and isinstance(sub.target, ast.Name) and sub.value is not None:
                     ci.class_attrs[mangle(sub.target.id, node.name)] = sub.value
+                    if is_dataclass:      # declared field with a default: reads of obj.<name> are heap reads (field_types), the
+                        ci.annotations[mangle(sub.target.id, node.name)] = sub.annotation      # class attribute only feeds the constructor
                 elif isinstance(sub, ast.AnnAssign) and isinstance(sub.target, ast.Name):
                     ci.annotations[mangle(sub.target.id, node.name)] = sub.annotation
             ci.decorators = _decorator_names(node)
